@@ -143,6 +143,12 @@ func (m *gm) apply(f []string) bool {
 			h.pt--
 			if h.timer != 0 && m.conn[h.peer] {
 				h.timer = 0
+				if len(f) > 3 && m.busy == 0 { // flap: drop, notification, startIfDisconnected
+					m.conn[h.peer] = false
+					if k, ok := m.peers[h.peer]; ok && !m.hs[k].cancelled && m.hs[k].timer == 0 {
+						m.hs[k].timer = 1
+					}
+				}
 			}
 		}
 	case "fire":
@@ -260,6 +266,9 @@ func gen(r *vh.Rand, tier string, n int, emit func(vh.Case)) {
 					op = fmt.Sprintf("run %d start", j)
 				case w < 64:
 					op = fmt.Sprintf("run %d stop", j)
+					if r.Chance(1, 2) {
+						op += " flap"
+					}
 				case w < 78:
 					op = fmt.Sprintf("fire %d", j)
 				case w < 89:
